@@ -77,6 +77,27 @@ _m('C04',
    'outside the pairing rule for the worker thread; own-container elements are assumed well typed.',
    'DESIGN.md §3 C04')
 
+_m('C05',
+   'finite-domain evaluation of the except-branch per ErrorStrategy (effect table); typestate with exception edges; local type rule; try/finally path check',
+   'Decides, for each of the five error strategies, the complete set of effects the handler around event.execute() can '
+   'have on the run loop, and compares it with the property (continue: none; pause: exactly run_state := STOPPING, loop '
+   'head re-reads the state); that the handler catches every Exception; that with exception edges included every popped '
+   'event is still executed exactly once in order; that step() fires STOP and returns to STOPPED on every path and that '
+   'its handler cannot itself raise. Covers every failing handler and every strategy at once.',
+   'SimEvent.execute is the only place handlers are called (checked); effects are classified syntactically (field '
+   'writes, container mutations, state-changing self calls, exit calls).',
+   'DESIGN.md §3 C05')
+
+_m('C06',
+   'ordered must-call / dominance analysis of the inlined initialize CFGs; registry-clearing rule; reset-completeness (def-before-use over fields)',
+   'Decides that initialize refuses while running before anything is cleared, clears the event list before the model is '
+   'rebuilt, resets the clock before construct_model(), calls construct_model() exactly once on every path, sets both '
+   'states to INITIALIZED, schedules one warm-up above normal priority, clears every duplicate-refusing registry that '
+   'statistics constructors fill, and that every field written during a run is re-assigned by initialize or _start_impl. '
+   'Equality of two replications\' traces is argued from these plus C07/C12, not checked.',
+   'Structural reset completeness only; user models are assumed to keep their own state inside construct_model().',
+   'DESIGN.md §3 C06')
+
 
 def finalize():
     for i in range(1, 19):
